@@ -58,7 +58,8 @@ def gen_case(r, cid, tier):
             spec["depth"] = r.randint(1, 9 if d == 1 else 6 if d == 2 else 4)
         nab = GAUSS_AB.get(spec["rule"], 0)
         if nab:
-            spec["ab"] = [r.choice([0.0, 0.5, 1.0, 2.0, 0.25]), r.choice([0.0, 0.5, 2.0]) if nab == 2 else 0.0]
+            # the documented range is alpha, beta > -1: also negative parameters (alpha + beta = -1 is a removable 0/0 of the Jacobi recurrence)
+            spec["ab"] = [r.choice([0.0, 0.5, 1.0, 2.0, 0.25, -0.5, -0.25]), r.choice([0.0, 0.5, 2.0, -0.5, -0.75]) if nab == 2 else 0.0]
     elif fam == "sequence":
         spec["rule"] = r.choice(SEQ)
         spec["depth"] = r.randint(1, 3) if "tensor" in ty else (r.randint(1, 5) if ty in ("level", "curved", "hyperbolic") else r.randint(1, 8 if d <= 2 else 5))
